@@ -67,7 +67,8 @@ Redownloadable(id) == id \notin {"r0", "r1"} /\ Design # "row_first"
 (* steps *)
 
 NoMs == <<>>
-S(n, k, a, b, ms, fl) == [n |-> n, k |-> k, h |-> "end", soft |-> FALSE, a |-> a, b |-> b, ms |-> ms, fl |-> fl]
+\* alt: steps the code inserts when this (soft) step fails - the fallback path
+S(n, k, a, b, ms, fl) == [n |-> n, k |-> k, h |-> "end", soft |-> FALSE, alt |-> <<>>, a |-> a, b |-> b, ms |-> ms, fl |-> fl]
 
 Begin  == S("tx.begin", "begin", "", "", NoMs, {})
 Commit == S("tx.commit", "commit", "", "", NoMs, {})
@@ -90,6 +91,7 @@ DelRows(m)            == S("tx.DeleteMessages", "delrows", "", "", <<m>>, {})
 
 H(seq, h) == [i \in DOMAIN seq |-> [seq[i] EXCEPT !.h = h]]
 Soft(s)   == [s EXCEPT !.soft = TRUE]
+SoftAlt(s, alt) == [s EXCEPT !.soft = TRUE, !.alt = alt]
 
 EmptyTx == <<Begin, Commit>>
 
@@ -102,6 +104,9 @@ StepsOf(op) ==
          ELSE H(<<Begin, Rd("tx.GetMailboxMessageCountAndUID"), Rd("tx.GetMessageIDFromRemoteID"), Set("m4"), CreateAdd("A", "m4", {}), Commit>>, "recover")
               \o H(EmptyTx, IF AppendFix THEN "end" ELSE "recover")                                                 \* stateDBWrite: second transaction (state updates)
               \o H(<<Begin, Nop("tx.ClearRecentFlagInMailboxOnMessage"), Commit>>, "end")   \* flush
+    [] op = "FETCH" ->       \* FETCH 1 (BODY.PEEK[]) in A: State.getLiteral - when the cache file cannot be read the literal is
+                             \* asked from the connector again and written back (the command still answers OK with the bytes)
+         <<SoftAlt(Get("m1"), <<Set("m1")>>)>> \o H(EmptyTx, "end")
     [] op = "COPY" ->        \* COPY 1 B
          H(<<Begin, Rd("tx.MailboxFilterContains"), Rd("tx.GetMailboxMessageCountAndUID"), Add("B", "m1"), Commit>>, "flush")
          \o H(EmptyTx, "flush") \o H(EmptyTx, "end")
@@ -294,7 +299,8 @@ FailStep == /\ mode = "run" /\ fault = NoFault /\ pc <= Len(list)
             /\ trace' = Append(trace, list[pc].n)
             /\ IF list[pc].soft
                THEN /\ pc' = pc + 1
-                    /\ UNCHANGED <<list, mode, disk>>
+                    /\ list' = SubSeq(list, 1, pc) \o list[pc].alt \o SubSeq(list, pc + 1, Len(list))
+                    /\ UNCHANGED <<mode, disk>>
                ELSE /\ disk' = Rollback(disk)
                     /\ list' = Handler(op, list[pc].h)
                     /\ pc' = 1
